@@ -195,6 +195,13 @@ module Coq_Pos =
   | XO p -> XI (pred_double p)
   | XH -> XH
 
+  (** val pred_N : positive -> n **)
+
+  let pred_N = function
+  | XI p -> Npos (XO p)
+  | XO p -> Npos (pred_double p)
+  | XH -> N0
+
   type mask = Pos.mask =
   | IsNul
   | IsPos of positive
@@ -262,6 +269,13 @@ module Coq_Pos =
     | XO p -> XO (mul p y)
     | XH -> y
 
+  (** val iter : ('a1 -> 'a1) -> 'a1 -> positive -> 'a1 **)
+
+  let rec iter f x = function
+  | XI n' -> f (iter f (iter f x n') n')
+  | XO n' -> iter f (iter f x n') n'
+  | XH -> f x
+
   (** val compare_cont : comparison -> positive -> positive -> comparison **)
 
   let rec compare_cont r x y =
@@ -298,6 +312,76 @@ module Coq_Pos =
     | XH -> (match q with
              | XH -> true
              | _ -> false)
+
+  (** val coq_Nsucc_double : n -> n **)
+
+  let coq_Nsucc_double = function
+  | N0 -> Npos XH
+  | Npos p -> Npos (XI p)
+
+  (** val coq_Ndouble : n -> n **)
+
+  let coq_Ndouble = function
+  | N0 -> N0
+  | Npos p -> Npos (XO p)
+
+  (** val coq_land : positive -> positive -> n **)
+
+  let rec coq_land p q =
+    match p with
+    | XI p0 ->
+      (match q with
+       | XI q0 -> coq_Nsucc_double (coq_land p0 q0)
+       | XO q0 -> coq_Ndouble (coq_land p0 q0)
+       | XH -> Npos XH)
+    | XO p0 ->
+      (match q with
+       | XI q0 -> coq_Ndouble (coq_land p0 q0)
+       | XO q0 -> coq_Ndouble (coq_land p0 q0)
+       | XH -> N0)
+    | XH -> (match q with
+             | XO _ -> N0
+             | _ -> Npos XH)
+
+  (** val coq_lxor : positive -> positive -> n **)
+
+  let rec coq_lxor p q =
+    match p with
+    | XI p0 ->
+      (match q with
+       | XI q0 -> coq_Ndouble (coq_lxor p0 q0)
+       | XO q0 -> coq_Nsucc_double (coq_lxor p0 q0)
+       | XH -> Npos (XO p0))
+    | XO p0 ->
+      (match q with
+       | XI q0 -> coq_Nsucc_double (coq_lxor p0 q0)
+       | XO q0 -> coq_Ndouble (coq_lxor p0 q0)
+       | XH -> Npos (XI p0))
+    | XH ->
+      (match q with
+       | XI q0 -> Npos (XO q0)
+       | XO q0 -> Npos (XI q0)
+       | XH -> N0)
+
+  (** val shiftl : positive -> n -> positive **)
+
+  let shiftl p = function
+  | N0 -> p
+  | Npos n1 -> iter (fun x -> XO x) p n1
+
+  (** val testbit : positive -> n -> bool **)
+
+  let rec testbit p n0 =
+    match p with
+    | XI p0 -> (match n0 with
+                | N0 -> true
+                | Npos n1 -> testbit p0 (pred_N n1))
+    | XO p0 -> (match n0 with
+                | N0 -> false
+                | Npos n1 -> testbit p0 (pred_N n1))
+    | XH -> (match n0 with
+             | N0 -> true
+             | Npos _ -> false)
 
   (** val to_little_uint : positive -> uint **)
 
@@ -394,6 +478,38 @@ module N =
     match compare x y with
     | Lt -> true
     | _ -> false
+
+  (** val coq_land : n -> n -> n **)
+
+  let coq_land n0 m =
+    match n0 with
+    | N0 -> N0
+    | Npos p -> (match m with
+                 | N0 -> N0
+                 | Npos q -> Coq_Pos.coq_land p q)
+
+  (** val coq_lxor : n -> n -> n **)
+
+  let coq_lxor n0 m =
+    match n0 with
+    | N0 -> m
+    | Npos p -> (match m with
+                 | N0 -> n0
+                 | Npos q -> Coq_Pos.coq_lxor p q)
+
+  (** val shiftl : n -> n -> n **)
+
+  let shiftl a n0 =
+    match a with
+    | N0 -> N0
+    | Npos a0 -> Npos (Coq_Pos.shiftl a0 n0)
+
+  (** val testbit : n -> n -> bool **)
+
+  let testbit a n0 =
+    match a with
+    | N0 -> false
+    | Npos p -> Coq_Pos.testbit p n0
 
   (** val to_uint : n -> uint **)
 
@@ -689,6 +805,119 @@ let bump_major v =
   if N.ltb v.major u32_max
   then Some { major = (N.add v.major (Npos XH)); minor = N0; patch = N0 }
   else None
+
+type ('vS, 'vr) vSReq = { rq_eqb : ('vS -> 'vS -> bool); rq_empty : 'vS;
+                          rq_singleton : ('vr -> 'vS);
+                          rq_complement : ('vS -> 'vS);
+                          rq_intersection : ('vS -> 'vS -> 'vS);
+                          rq_contains : ('vS -> 'vr -> bool) }
+
+type ('vS, 'vr) vSOps = { vs_eqb : ('vS -> 'vS -> bool); vs_empty : 'vS;
+                          vs_singleton : ('vr -> 'vS);
+                          vs_complement : ('vS -> 'vS);
+                          vs_intersection : ('vS -> 'vS -> 'vS);
+                          vs_contains : ('vS -> 'vr -> bool); vs_full : 
+                          'vS; vs_union : ('vS -> 'vS -> 'vS);
+                          vs_is_disjoint : ('vS -> 'vS -> bool);
+                          vs_subset_of : ('vS -> 'vS -> bool) }
+
+(** val full_default : ('a1, 'a2) vSReq -> 'a1 **)
+
+let full_default r =
+  r.rq_complement r.rq_empty
+
+(** val union_default : ('a1, 'a2) vSReq -> 'a1 -> 'a1 -> 'a1 **)
+
+let union_default r a b =
+  r.rq_complement (r.rq_intersection (r.rq_complement a) (r.rq_complement b))
+
+(** val is_disjoint_default : ('a1, 'a2) vSReq -> 'a1 -> 'a1 -> bool **)
+
+let is_disjoint_default r a b =
+  r.rq_eqb (r.rq_intersection a b) r.rq_empty
+
+(** val subset_of_default : ('a1, 'a2) vSReq -> 'a1 -> 'a1 -> bool **)
+
+let subset_of_default r a b =
+  r.rq_eqb a (r.rq_intersection a b)
+
+(** val with_defaults : ('a1, 'a2) vSReq -> ('a1, 'a2) vSOps **)
+
+let with_defaults r =
+  { vs_eqb = r.rq_eqb; vs_empty = r.rq_empty; vs_singleton = r.rq_singleton;
+    vs_complement = r.rq_complement; vs_intersection = r.rq_intersection;
+    vs_contains = r.rq_contains; vs_full = (full_default r); vs_union =
+    (union_default r); vs_is_disjoint = (is_disjoint_default r);
+    vs_subset_of = (subset_of_default r) }
+
+type v8 =
+| V0
+| V1
+| V2
+| V3
+| V4
+| V5
+| V6
+| V7
+
+(** val v8_idx : v8 -> n **)
+
+let v8_idx = function
+| V0 -> N0
+| V1 -> Npos XH
+| V2 -> Npos (XO XH)
+| V3 -> Npos (XI XH)
+| V4 -> Npos (XO (XO XH))
+| V5 -> Npos (XI (XO XH))
+| V6 -> Npos (XO (XI XH))
+| V7 -> Npos (XI (XI XH))
+
+(** val v8_of_N : n -> v8 **)
+
+let v8_of_N = function
+| N0 -> V0
+| Npos p ->
+  (match p with
+   | XI p0 ->
+     (match p0 with
+      | XI _ -> V7
+      | XO p1 -> (match p1 with
+                  | XH -> V5
+                  | _ -> V7)
+      | XH -> V3)
+   | XO p0 ->
+     (match p0 with
+      | XI p1 -> (match p1 with
+                  | XH -> V6
+                  | _ -> V7)
+      | XO p1 -> (match p1 with
+                  | XH -> V4
+                  | _ -> V7)
+      | XH -> V2)
+   | XH -> V1)
+
+(** val all_v8 : v8 list **)
+
+let all_v8 =
+  V0 :: (V1 :: (V2 :: (V3 :: (V4 :: (V5 :: (V6 :: (V7 :: [])))))))
+
+(** val bs_mask : n **)
+
+let bs_mask =
+  Npos (XI (XI (XI (XI (XI (XI (XI XH)))))))
+
+(** val bitset_req : (n, v8) vSReq **)
+
+let bitset_req =
+  { rq_eqb = N.eqb; rq_empty = N0; rq_singleton = (fun v ->
+    N.shiftl (Npos XH) (v8_idx v)); rq_complement = (fun a ->
+    N.coq_lxor a bs_mask); rq_intersection = N.coq_land; rq_contains =
+    (fun a v -> N.testbit a (v8_idx v)) }
+
+(** val bitset_vs : (n, v8) vSOps **)
+
+let bitset_vs =
+  with_defaults bitset_req
 
 type 't bound =
 | Incl of 't
@@ -1473,6 +1702,14 @@ module RangeM =
             false)), (String ((Ascii (false, false, false, false, false,
             true, false, false)), EmptyString)))))
           (map (render_token show) conj)) tl)
+
+  (** val range_vs : (range, ver) vSOps **)
+
+  let range_vs =
+    { vs_eqb = range_eqb; vs_empty = empty; vs_singleton = singleton;
+      vs_complement = complement; vs_intersection = intersection;
+      vs_contains = contains; vs_full = full; vs_union = union;
+      vs_is_disjoint = is_disjoint; vs_subset_of = subset_of }
  end
 
 module ZV =
@@ -1496,3 +1733,116 @@ module RZ = RangeM(ZV)
 
 let rz_display r =
   RZ.display dec_Z r
+
+type 'vS term =
+| Pos of 'vS
+| Neg of 'vS
+
+type relation =
+| Satisfied
+| Contradicted
+| Inconclusive
+
+(** val t_any : ('a1, 'a2) vSOps -> 'a1 term **)
+
+let t_any o =
+  Neg o.vs_empty
+
+(** val t_empty : ('a1, 'a2) vSOps -> 'a1 term **)
+
+let t_empty o =
+  Pos o.vs_empty
+
+(** val t_exact : ('a1, 'a2) vSOps -> 'a2 -> 'a1 term **)
+
+let t_exact o v =
+  Pos (o.vs_singleton v)
+
+(** val t_is_positive : 'a1 term -> bool **)
+
+let t_is_positive = function
+| Pos _ -> true
+| Neg _ -> false
+
+(** val t_negate : 'a1 term -> 'a1 term **)
+
+let t_negate = function
+| Pos s -> Neg s
+| Neg s -> Pos s
+
+(** val t_contains : ('a1, 'a2) vSOps -> 'a1 term -> 'a2 -> bool **)
+
+let t_contains o t0 v =
+  match t0 with
+  | Pos s -> o.vs_contains s v
+  | Neg s -> negb (o.vs_contains s v)
+
+(** val t_intersection :
+    ('a1, 'a2) vSOps -> 'a1 term -> 'a1 term -> 'a1 term **)
+
+let t_intersection o t0 u =
+  match t0 with
+  | Pos p ->
+    (match u with
+     | Pos r2 -> Pos (o.vs_intersection p r2)
+     | Neg n0 -> Pos (o.vs_intersection (o.vs_complement n0) p))
+  | Neg r1 ->
+    (match u with
+     | Pos p -> Pos (o.vs_intersection (o.vs_complement r1) p)
+     | Neg r2 -> Neg (o.vs_union r1 r2))
+
+(** val t_is_disjoint : ('a1, 'a2) vSOps -> 'a1 term -> 'a1 term -> bool **)
+
+let t_is_disjoint o t0 u =
+  match t0 with
+  | Pos p ->
+    (match u with
+     | Pos r2 -> o.vs_is_disjoint p r2
+     | Neg n0 -> o.vs_subset_of p n0)
+  | Neg n0 -> (match u with
+               | Pos p -> o.vs_subset_of p n0
+               | Neg _ -> false)
+
+(** val t_union : ('a1, 'a2) vSOps -> 'a1 term -> 'a1 term -> 'a1 term **)
+
+let t_union o t0 u =
+  match t0 with
+  | Pos p ->
+    (match u with
+     | Pos r2 -> Pos (o.vs_union p r2)
+     | Neg n0 -> Neg (o.vs_intersection (o.vs_complement p) n0))
+  | Neg r1 ->
+    (match u with
+     | Pos p -> Neg (o.vs_intersection (o.vs_complement p) r1)
+     | Neg r2 -> Neg (o.vs_intersection r1 r2))
+
+(** val t_subset_of : ('a1, 'a2) vSOps -> 'a1 term -> 'a1 term -> bool **)
+
+let t_subset_of o t0 u =
+  match t0 with
+  | Pos r1 ->
+    (match u with
+     | Pos r2 -> o.vs_subset_of r1 r2
+     | Neg r2 -> o.vs_is_disjoint r1 r2)
+  | Neg r1 -> (match u with
+               | Pos _ -> false
+               | Neg r2 -> o.vs_subset_of r2 r1)
+
+(** val t_relation_with :
+    ('a1, 'a2) vSOps -> 'a1 term -> 'a1 term -> relation **)
+
+let t_relation_with o t0 other =
+  if t_subset_of o other t0
+  then Satisfied
+  else if t_is_disjoint o t0 other then Contradicted else Inconclusive
+
+(** val t_eqb : ('a1, 'a2) vSOps -> 'a1 term -> 'a1 term -> bool **)
+
+let t_eqb o t0 u =
+  match t0 with
+  | Pos a -> (match u with
+              | Pos b -> o.vs_eqb a b
+              | Neg _ -> false)
+  | Neg a -> (match u with
+              | Pos _ -> false
+              | Neg b -> o.vs_eqb a b)
